@@ -384,7 +384,16 @@ fn run_op<K: Kt>(st: &mut State<K>, t: &[&str]) -> String {
     let head = match r {
         Ok(Ok(ret)) => format!("ok ret={ret}"),
         Ok(Err(er)) => format!("err kind={}", err_kind(&er)),
-        Err(_) => format!("panic {}", take_panic_msg()),
+        Err(_) => {
+            let m = take_panic_msg();
+            if m.contains("injected_signer_panic") {
+                // the caller's own signer panicked and the caller caught the unwind: for the library this call did
+                // not happen (same observation as a signer that reports failure)
+                "err kind=SigningError".to_string()
+            } else {
+                format!("panic {m}")
+            }
+        }
     };
     let rec = rec_obs_guarded(st.cur.as_ref().unwrap());
     let _ = logs();
@@ -489,7 +498,14 @@ fn run_build<K: Kt>(st: &mut State<K>, t: &[&str], again: bool) -> String {
             format!("ok {lg} {rec}")
         }
         Ok(Err(er)) => format!("err kind={} {lg}", err_kind(&er)),
-        Err(_) => format!("panic {}", take_panic_msg()),
+        Err(_) => {
+            let m = take_panic_msg();
+            if m.contains("injected_signer_panic") {
+                format!("err kind=SigningError {lg}")
+            } else {
+                format!("panic {m}")
+            }
+        }
     }
 }
 
